@@ -4,7 +4,7 @@ import re
 from lib import *
 from batches import core
 
-TRUSTED = list(core.TRUSTED) + ['<[T', 'deref']   # '<[T' is how the ledger scanner names `assume_specification [<[T]>::to_vec]`
+TRUSTED = list(core.TRUSTED) + ['<[T', 'deref', 'attr', 'parse_attribute', 'skip_attributes', 'value']   # '<[T' is how the ledger scanner names `assume_specification [<[T]>::to_vec]`
 VERUS_ARGS = ['--rlimit', '30']
 
 OFFSET_RULE = 'R-OFFSET'
@@ -409,9 +409,9 @@ use std::vec::Vec;
 use crate::common::{DebugAddrBase, DebugAddrIndex, DebugLineOffset, DebugLineStrOffset, DebugLocListsBase, DebugLocListsIndex, DebugMacinfoOffset,
     DebugMacroOffset, DebugRngListsBase, DebugRngListsIndex, DebugStrOffset, DebugStrOffsetsBase, DebugStrOffsetsIndex, LocationListsOffset, RawRangeListsOffset};
 use crate::read::{Abbreviation, Abbreviations, AttributeSpecification};"""
-    sk.add('read::unit', op.item(r'^pub struct Expression<R: Reader>\(').clean(rejrec=['R']))
+    sk.add('read::unit', op.item(r'^pub struct Expression<R: Reader>\(').clean(offset=False, rejrec=['R']))
     sk.add('read::unit', un.item(r'^pub enum AttributeValue<R, Offset').clean(rejrec=['R', 'Offset']))
-    sk.add('read::unit', un.item(r'^pub struct Attribute<R: Reader> \{').clean(rejrec=['R']))
+    sk.add('read::unit', un.item(r'^pub struct Attribute<R: Reader> \{').clean(offset=False, rejrec=['R']))
     ai = un.item(r'^impl<R: Reader> Attribute<R> \{', label='Attribute')
     ai.keep_only(['name', 'form', 'raw_value', 'value'])
     ai.extbody(['value'])       # the 600-line normalisation belongs to batch `attrs` (C03); only its existence is needed here
@@ -459,7 +459,8 @@ use crate::read::{Abbreviation, Abbreviations, AttributeSpecification};"""
     sk.add('read::unit', de)
 
     # ---------------------------------------------------------------- EntriesRaw
-    sk.add('read::unit', un.item(r'^pub struct EntriesRaw<\'abbrev, R>').clean(rejrec=['R']))
+    # derive(Debug) would need Debug for Abbreviations (hand-written impls on Attributes, not extracted)
+    sk.add('read::unit', un.item(r'^pub struct EntriesRaw<\'abbrev, R>').custom('R-ATTR', '#[derive(Clone, Debug)]', '#[derive(Clone)]').clean(rejrec=['R']))
     er = un.item(r"^impl<'abbrev, R: Reader> EntriesRaw<'abbrev, R> \{", label='EntriesRaw')
     er.custom('R-CLONE', 'self.input.clone()', 'reader_clone(&self.input)')
     er.clean()
@@ -477,6 +478,19 @@ use crate::read::{Abbreviation, Abbreviations, AttributeSpecification};"""
         &&& self.g_input().len <= self.g_end()
         &&& self.g_abbrevs().inv()
         &&& isize::MIN + self.g_input().len <= self.g_depth() && self.g_depth() + self.g_input().len <= isize::MAX
+    }
+    /// one `read_entry` step as a relation: from read position `iv` (a view whose end is unit offset `end`) at depth `d`, with table `ab`,
+    /// the entry `e` is read (`nonnull` = its code is not 0), leaving read position `fv` and depth `fd`   (DWARF 5 section 7.5.2:
+    /// an entry is an abbreviation code + the attribute values its declaration lists; code 0 is a null entry ending a sibling chain)
+    pub open spec fn die_step(iv: RView, d: int, end: nat, ab: Abbreviations, fv: RView, fd: int, e: DebuggingInformationEntry<R>, nonnull: bool) -> bool {
+        let code = iv.uleb(0);
+        &&& within(iv, fv) && fv.len < iv.len
+        &&& e.offset.0 == end - iv.len && e.depth == d
+        &&& nonnull == (code != 0)
+        &&& !nonnull ==> e.tag.0 == 0 && !e.has_children && e.attrs@.len() == 0 && fd == d - 1 && adv(iv, fv, iv.leb_len(0))
+        &&& nonnull ==> ab.view().contains_key(code as u64) && ({ let a = ab.view()[code as u64];
+                e.tag.0 == a.g_tag() && e.has_children == (a.g_children() == 0x01) && e.attrs@.len() == a.g_attrs().len()
+                && fd == d + (if e.has_children { 1int } else { 0int }) })
     }
     /// everything except input and depth
     pub open spec fn same_unit(&self, o: &Self) -> bool {
@@ -511,8 +525,9 @@ use crate::read::{Abbreviation, Abbreviations, AttributeSpecification};"""
         FR,
         '[C20:attrs-cleared][C02:entry-attrs] res is Ok ==> final(attrs)@.len() == specs@.len() && forall|i: int| 0 <= i < specs@.len() ==> '
         '(#[trigger] final(attrs)@[i]).g_name() == specs@[i].sp().name && final(attrs)@[i].g_form() == specs@[i].sp().form'],
-        loops={0: f'invariant within({OI}, self.g_input()), self.same_unit({OS}), self.g_depth() == {OS}.g_depth(), attrs@.len() == verif_idx, '
-                  'forall|i: int| 0 <= i < verif_idx ==> (#[trigger] attrs@[i]).g_name() == specs@[i].sp().name && attrs@[i].g_form() == specs@[i].sp().form'})
+        loops={0: f'invariant within({OI}, self.g_input()), self.same_unit({OS}), self.g_depth() == {OS}.g_depth(), attrs@.len() == verif_it.index@, '
+                  'forall|i: int| 0 <= i < verif_it.index@ ==> (#[trigger] attrs@[i]).g_name() == specs@[i].sp().name && attrs@[i].g_form() == specs@[i].sp().form'})
+    er.insert_after('for spec in ', 'verif_it: ')   # names the ghost iterator of the verbatim `for spec in specs` (insertion only)
     er.splice('skip_attributes', ret='res', ensures=[FR])
     ABV = f'{OS}.g_abbrevs().view()[{CODE} as u64]'
     er.splice('read_entry', ret='res', requires=[f'[C02:raw-inv] {OS}.inv()'], canary=True, ensures=[
@@ -525,9 +540,73 @@ use crate::read::{Abbreviation, Abbreviations, AttributeSpecification};"""
         f'&& final(entry).attrs@.len() == {ABV}.g_attrs().len() '
         f'&& (forall|i: int| 0 <= i < {ABV}.g_attrs().len() ==> (#[trigger] final(entry).attrs@[i]).g_name() == {ABV}.g_attrs()[i].sp().name && final(entry).attrs@[i].g_form() == {ABV}.g_attrs()[i].sp().form)',
         f'[C02:depth-children] res matches Ok(true) ==> {FS}.g_depth() == {OS}.g_depth() + (if final(entry).has_children {{ 1int }} else {{ 0int }})',
+        f'[C02:entry-step] res matches Ok(b) ==> Self::die_step({OI}, {OS}.g_depth(), {OS}.g_end(), {OS}.g_abbrevs(), {FI}, {FS}.g_depth(), *final(entry), b)',
         f'[C01:frame] within({OI}, {FI})',
         f'[C01:progress] res is Ok ==> {FI}.len < {OI}.len'])
     sk.add('read::unit', er)
+    populate_cursor(ctx, sk, un)
+    return sk
+
+
+def populate_cursor(ctx, sk, un):
+    # ---------------------------------------------------------------- EntriesCursor
+    sk.add('read::unit', un.item(r"^pub struct EntriesCursor<'abbrev, R>").custom('R-ATTR', '#[derive(Clone, Debug)]', '#[derive(Clone)]').clean(rejrec=['R']))
+    ec = un.item(r"^impl<'abbrev, R: Reader> EntriesCursor<'abbrev, R> \{", label='EntriesCursor')
+    ec.clean()
+    ec.own(['C01', 'C02'])
+    ec.insert_members("""    pub closed spec fn g_raw(&self) -> EntriesRaw<'abbrev, R> { self.input }
+    pub closed spec fn g_cur(&self) -> DebuggingInformationEntry<R> { self.cached_current }
+    /// invariant: the raw reader's invariant, and the cached entry's depth (which `next_sibling` hands back to `seek_forward`) obeys the same
+    /// bound as the raw reader's depth counter
+    pub open spec fn inv(&self) -> bool {
+        &&& self.g_raw().inv()
+        &&& isize::MIN + self.g_raw().g_input().len <= self.g_cur().depth && self.g_cur().depth + self.g_raw().g_input().len <= isize::MAX
+    }
+    pub open spec fn cur_is_null(&self) -> bool { self.g_cur().tag.0 == 0 }""")
+    OS, FS = 'old(self)', 'final(self)'
+    OR, FR = 'old(self).g_raw()', 'final(self).g_raw()'
+    OI, FI = 'old(self).g_raw().g_input()', 'final(self).g_raw().g_input()'
+    INV = [f'[C02:cursor-inv] {OS}.inv()']
+    KEEP = f'[C02:cursor-inv] {FS}.inv() && {FR}.same_unit(&{OR})'
+    STEP = f"EntriesRaw::<'abbrev, R>::die_step"
+    ec.splice('new', ret='res', requires=['abbreviations.inv()', 'input.rv().len <= isize::MAX', 'offset.0 + input.rv().len <= usize::MAX'], ensures=[
+        '[C02:cursor-new] res.inv() && res.cur_is_null() && res.g_raw().g_input() == input.rv() && res.g_raw().g_encoding() == encoding && res.g_raw().g_abbrevs() == *abbreviations '
+        '&& res.g_raw().g_depth() == 0 && res.g_raw().pos() == offset.0'])
+    ec.splice('current', ret='res', ensures=['[C02:cursor-current] match res { Some(e) => !self.cur_is_null() && *e == self.g_cur(), None => self.cur_is_null() }'])
+    ec.splice('offset', ret='res', ensures=['[C02:cursor-accessor] res == self.g_cur().offset'])
+    ec.splice('depth', ret='res', ensures=['[C02:cursor-accessor] res == self.g_cur().depth'])
+    ec.splice('next_offset', ret='res', requires=['self.g_raw().g_input().len <= self.g_raw().g_end()'], ensures=['[C02:next-offset] res.0 == self.g_raw().pos()'])
+    ec.splice('next_depth', ret='res', ensures=['[C02:next-depth] res == self.g_raw().g_depth()'])
+    ec.splice('next_entry', ret='res', requires=INV, canary=True, ensures=[
+        KEEP,
+        f'[C01:iter-end] {OI}.len == 0 ==> (res matches Ok(false)) && {FS}.cur_is_null() && {FI} == {OI} && {FR}.g_depth() == {OR}.g_depth()',
+        f'[C01:iter-end] res matches Ok(false) ==> {OI}.len == 0',
+        f'[C01:iter-err-empties] res is Err ==> {FI}.len == 0 && {FS}.cur_is_null()',
+        f'[C01:iter-progress] res matches Ok(true) ==> {FI}.len < {OI}.len',
+        f'[C02:cursor-step] res matches Ok(true) ==> {STEP}({OI}, {OR}.g_depth(), {OR}.g_end(), {OR}.g_abbrevs(), {FI}, {FR}.g_depth(), {FS}.g_cur(), !{FS}.cur_is_null())',
+        f'[C20:null-reset] res matches Ok(false) ==> {FS}.g_cur().attrs@.len() == 0 && !{FS}.g_cur().has_children',
+        f'[C01:frame] res is Ok ==> within({OI}, {FI})'])
+    ec.splice('next_dfs', ret='res', requires=INV, canary=True, ensures=[
+        KEEP,
+        f'[C02:dfs-step] res matches Ok(Some(e)) ==> *e == {FS}.g_cur() && !{FS}.cur_is_null() && {FI}.len < {OI}.len && exists|k: nat| #![trigger null_run_ok({OI}, k)] '
+        f'null_run_ok({OI}, k) && e.depth == {OR}.g_depth() - k && e.offset.0 == {OR}.pos() + null_run_end({OI}, k) '
+        f'&& {STEP}(advanced({OI}, null_run_end({OI}, k) as nat), {OR}.g_depth() - k, {OR}.g_end(), {OR}.g_abbrevs(), {FI}, {FR}.g_depth(), *e, true)',
+        f'[C02:dfs-end] res matches Ok(None) ==> {FI}.len == 0 && {FS}.cur_is_null() && exists|k: nat| #![trigger null_run_ok({OI}, k)] null_run_ok({OI}, k) && null_run_end({OI}, k) == {OI}.len',
+        f'[C01:iter-err-empties] res is Err ==> {FI}.len == 0 && {FS}.cur_is_null()',
+        f'[C01:frame] res is Ok ==> within({OI}, {FI})'],
+        before=[('loop', 'let ghost mut verif_k: nat = 0;'), ('} else {', 'proof { verif_k = verif_k + 1; }')],
+        loops={0: f'invariant self.inv(), self.g_raw().same_unit(&{OR}), within({OI}, self.g_raw().g_input()), null_run_ok({OI}, verif_k), '
+                  f'self.g_raw().g_input().start - {OI}.start == null_run_end({OI}, verif_k), self.g_raw().g_depth() == {OR}.g_depth() - verif_k,\n decreases self.g_raw().g_input().len'})
+    ec.splice('next_sibling', ret='res', requires=INV, canary=True, ensures=[
+        KEEP,
+        f'[C02:sibling-same-depth] res matches Ok(Some(e)) ==> *e == {FS}.g_cur() && !{FS}.cur_is_null() && e.depth == {OS}.g_cur().depth',
+        f'[C02:sibling-forward] res matches Ok(Some(e)) ==> e.offset.0 >= {OR}.pos() && {FI}.len < {OI}.len',
+        f'[C02:sibling-at-end] {OS}.cur_is_null() ==> (res matches Ok(None)) && {FS}.g_cur() == {OS}.g_cur() && {FI} == {OI} && {FR}.g_depth() == {OR}.g_depth()',
+        f'[C02:sibling-none] res matches Ok(None) && !{OS}.cur_is_null() ==> {FS}.cur_is_null() && ({FI}.len == 0 || {FS}.g_cur().depth == {OS}.g_cur().depth)',
+        f'[C01:iter-err-empties] res is Err ==> {FI}.len == 0 && {FS}.cur_is_null()',
+        f'[C01:frame] res is Ok ==> within({OI}, {FI})'],
+        loops={0: f'invariant self.inv(), self.g_raw().same_unit(&{OR}), within({OI}, self.g_raw().g_input()), !{OS}.cur_is_null(), current_depth == {OS}.g_cur().depth,\n decreases self.g_raw().g_input().len'})
+    sk.add('read::unit', ec)
     return sk
 
 
